@@ -35,6 +35,19 @@ fn family(thorough: bool) -> Vec<u64> {
             }
         }
     }
+    if thorough {
+        // every set of three squares from a 24-square spread (2024 sets) and their complements
+        let spread: Vec<u8> = (0..64u8).filter(|s| (s * 7 + s / 8) % 8 < 3).collect();
+        for a in 0..spread.len() {
+            for b in a + 1..spread.len() {
+                for c in b + 1..spread.len() {
+                    let m = (1u64 << spread[a]) | (1u64 << spread[b]) | (1u64 << spread[c]);
+                    v.push(m);
+                    v.push(!m);
+                }
+            }
+        }
+    }
     let windows: &[[u8; 12]] = if thorough { &[W1, W2] } else { &[W1] };
     for w in windows {
         for sub in 0..(1u32 << 12) {
@@ -256,6 +269,44 @@ pub fn check_subsets(mask: u64, sink: &Sink, t: &mut Tally) {
     }
 }
 
+/// For sets too large to enumerate: the first `n` subsets must be the n numerically smallest
+/// subsets in increasing order (checked against an independent successor computation), and the
+/// iterator must not end before them.
+pub fn check_subsets_prefix(mask: u64, n: usize, sink: &Sink, t: &mut Tally) {
+    let case = || json!({"kind": "subsets-prefix", "a": hex(mask), "n": n});
+    t.transitions += 1;
+    let total: u128 = 1u128 << mask.count_ones();
+    let want_n = std::cmp::min(n as u128, total) as usize;
+    // reference: deposit the bits of the counter i into the positions of the mask
+    let positions: Vec<u32> = (0..64).filter(|b| mask >> b & 1 == 1).collect();
+    let nth = |i: u64| -> u64 {
+        let mut out = 0u64;
+        for (j, &p) in positions.iter().enumerate() {
+            if j < 64 && i >> j & 1 == 1 {
+                out |= 1u64 << p;
+            }
+        }
+        out
+    };
+    let r = guarded(|| {
+        let mut it = BitBoard(mask).iter_subsets();
+        for i in 0..want_n {
+            match it.next() {
+                Some(s) if s.0 == nth(i as u64) => {}
+                Some(s) => return Some(format!("subset #{} is {:#x}, expected {:#x}", i, s.0, nth(i as u64))),
+                None => return Some(format!("iteration ends after {} subsets, the set has {}", i, total)),
+            }
+        }
+        None
+    });
+    t.validated += want_n as u64;
+    match r {
+        Err(e) => bad(sink, "subsets:iter_subsets panicked", case(), format!("iter_subsets of {:#x}: {}", mask, e)),
+        Ok(Some(d)) => bad(sink, "subsets:iter_subsets prefix", case(), format!("iter_subsets of {:#x}: {}", mask, d)),
+        Ok(None) => {}
+    }
+}
+
 pub fn run(run: &mut Run) {
     let thorough = !run.quick();
     let fam = family(thorough);
@@ -317,6 +368,20 @@ pub fn run(run: &mut Run) {
         })
         .reduce(Tally::default, Tally::merge);
     run.add("P-SUBSETS", json!({"masks": masks.len(), "max_bits": limit, "includes": "all rook/bishop relevant-blocker masks and full ray sets"}), true, t0, t);
+    // large sets (up to all 64 squares): the first 4096 subsets
+    let t0 = Instant::now();
+    let big: Vec<u64> = fam.iter().copied().filter(|m| m.count_ones() > limit).collect();
+    let t: Tally = big
+        .par_iter()
+        .fold(Tally::default, |mut t, &m| {
+            t.states += 1;
+            t.evals += 1;
+            t.nontrivial += 1;
+            check_subsets_prefix(m, 4096, &run.sink, &mut t);
+            t
+        })
+        .reduce(Tally::default, Tally::merge);
+    run.add("P-SUBSETS-PREFIX", json!({"masks": big.len(), "bits": format!("{}..64 (incl. the full board)", limit + 1), "prefix": 4096}), true, t0, t);
     run.sink.sample(|| json!({"kind": "pair", "a": hex(fam[fam.len() / 3]), "b": hex(fam[fam.len() / 2])}));
     run.sink.sample(|| json!({"kind": "subsets", "a": hex(masks[masks.len() / 2])}));
 }
@@ -330,6 +395,7 @@ pub fn replay(case: &Value, sink: &Sink, t: &mut Tally) -> Result<(), String> {
         }
         "unary" => check_unary(a, sink, t),
         "subsets" => check_subsets(a, sink, t),
+        "subsets-prefix" => check_subsets_prefix(a, case["n"].as_u64().unwrap_or(4096) as usize, sink, t),
         _ => return Err("MACHINERY: kind".into()),
     }
     Ok(())
